@@ -41,7 +41,7 @@ def cases(tier, seed):
                 d = rnd.choice([[1, 1, 1], [2, 1, 1], [1, 2, 1], [1, 1, 3], [2, 2, 1]])
                 sub = rnd.choice([1, 2])
                 sc = 3e-6
-                add(shape="box", dims=d, sub=sub, scale=sc, pos=[rnd.uniform(-3, 3) * sc for _ in range(3)], axis=a, lmin=sc / (2 ** sub) * rnd.choice([0.8, 1.0]),
+                add(shape="box", dims=d, sub=sub, scale=sc, pos=[rnd.uniform(-3, 3) * sc for _ in range(3)], axis=a, lmin=sc / 4 * rnd.choice([0.8, 1.0]),      # cell size / l_min >= 4 (at a ratio of 2 the remeshing of the daughters, not the cut, changes the volume by 30-60 %)
                     seed=seed + 100 + n, jitter=rnd.choice([0.0, 0.02]))
     return out
 
